@@ -799,9 +799,11 @@ def run(ctx):
 
     # ---- MC ------------------------------------------------------------------------------------------
     if want('MC'):
-        res = ctx.tlc('MC_Numberify', ctx.pick('MC_Numberify.cfg', 'MC_Numberify_thorough.cfg'), leg='MC', coverage=True,
-                      must_cover=('AddRow', 'Call', 'IdentityColumn', 'CensusRow', 'BuildConverters', 'StartConversion',
-                                  'ConvertRow', 'Return'))
+        # per-action coverage (vacuity guard) on the quick space only: -coverage costs ~25 % on the 6 M state run, whose
+        # actions are the same
+        res = ctx.tlc('MC_Numberify', ctx.pick('MC_Numberify.cfg', 'MC_Numberify_thorough.cfg'), leg='MC',
+                      must_cover=ctx.pick(('AddRow', 'Call', 'IdentityColumn', 'CensusRow', 'BuildConverters',
+                                           'StartConversion', 'ConvertRow', 'Return'), ()))
         if res.violated:
             ctx.violation('spec:' + ','.join(res.violated), 'TLC: the mechanism violates the declarative statement',
                           {'behaviour': res.behaviour[:4000]}, 'MC')
@@ -821,7 +823,7 @@ def run(ctx):
             cases = res.printed
             del res
             cand = [i for i, p in enumerate(cases) if routable(p) and p['fmt']]
-            pick_rq = set(ctx.rng.sample(cand, min(ctx.pick(120, 1000), len(cand))))
+            pick_rq = set(ctx.rng.sample(cand, min(ctx.pick(120, 600), len(cand))))
             for i, p in enumerate(cases):
                 n += 1
                 nontrivial = bool(p['rows']) and any(cell['lots'] for row in p['rows'] for cell in row)
@@ -848,7 +850,7 @@ def run(ctx):
         res = ctx.tlc('Gen_Numberify', 'Gen_Numberify_shell.cfg', leg='GEN-shell', workers=4)
         cand = [p for p in res.printed if shell_routable(p)]
         nsh = 0
-        for k, p in enumerate(ctx.rng.sample(cand, min(ctx.pick(40, 600), len(cand)))):
+        for k, p in enumerate(ctx.rng.sample(cand, min(ctx.pick(40, 400), len(cand)))):
             s2c_shell(ctx, p, k)
             ctx.case(json.dumps(['shell', p['rows'], p['fmt']]), bool(p['rows']))
             nsh += 1
@@ -861,7 +863,7 @@ def run(ctx):
     # ---- C2S -----------------------------------------------------------------------------------------
     if want('C2S'):
         path = ctx.path('numberify_trace.ndjson')
-        nev, stats = record_c2s(ctx, path, ctx.pick(2000, 20000), ctx.pick(80, 800))
+        nev, stats = record_c2s(ctx, path, ctx.pick(2000, 15000), ctx.pick(80, 600))
         with open(path) as f:
             for line in f:
                 ev = json.loads(line)
